@@ -530,6 +530,8 @@ def _independent_gs(vectors, r):
         if bool(n2 == 0):
             continue
         nrm = alg_sqrt(n2)
+        from .alg import _mark_positive
+        _mark_positive(nrm)
         basis.append([x / nrm for x in w])
     if len(basis) < r:
         from .state import PathAbort
@@ -554,6 +556,8 @@ def _complement_basis(rb, n):
         if bool(n2 == 0):
             continue
         nrm = alg_sqrt(n2)
+        from .alg import _mark_positive
+        _mark_positive(nrm)
         w = [x / nrm for x in w]
         basis.append(w)
         out.append(w)
